@@ -145,8 +145,9 @@ theorem contains_map_str (l : List Bytes) (t : Bytes) : (l.map Val.str).contains
   | cons x xs ih => simp only [List.map_cons, List.contains_cons, ih, val_str_beq]
 
 theorem traceInfo_eval (o : Oracles) (ao : AggOracles) (db : Db) (env : Env) (c : Ctx) (S : List SpanRow) (K : List (Bytes × List Bytes))
-    (hdb : db c.tracesTable = S.map SpanRow.row)
-    (henv : env.lookup (.named "trace_ids") = some (K.map (fun k => [("trace_id", Val.str k.1)]))) :
+    (hdb : db c.tracesTable = S.map SpanRow.row) (T : Table)
+    (henv : env.lookup (.named "trace_ids") = some T)
+    (hT : ∀ t : Bytes, (firstCol T).contains (Val.str t) = (tidsOf K).contains t) :
     evalCteJ o ao db env (tracesInfoSel c) =
       (dedup ((S.filter (fun s => (tidsOf K).contains s.traceId)).map (·.traceId))).map (fun t => infoRow t (traceStart S t)) := by
   have hu : evalCteJ o ao db env (tracesInfoSel c) = evalBodyJ o ao db env (tracesInfoSel c) := by
@@ -164,7 +165,7 @@ theorem traceInfo_eval (o : Oracles) (ao : AggOracles) (db : Db) (env : Env) (c 
     apply List.filter_congr
     intro s _
     simp only [Function.comp, and_, evalBJ, evalAllJ, if_true, Bool.and_true, evalB, evalE, henv, Option.getD_some,
-      firstCol_tids, truthy_boolVal, srow_qtrace, contains_map_str]
+      truthy_boolVal, srow_qtrace, hT]
   rw [hf]
   have hg := groups_of_records (S.filter (fun s => (tidsOf K).contains s.traceId)) srow (fun s => s.traceId) (fun t => [Val.str t])
     (fun r => [Expr.raw "traces.trace_id"].map (fun k => evalE o env r k))
@@ -304,7 +305,7 @@ def infoTable (K : List (Bytes × List Bytes)) (S : List SpanRow) : Table :=
 
 /-- the environment the body of the statement is evaluated in -/
 structure BodyEnv (env : Env) (K : List (Bytes × List Bytes)) (S : List SpanRow) : Prop where
-  tids : env.lookup (.named "trace_ids") = some (tidsTable K)
+  tids : ∃ T, env.lookup (.named "trace_ids") = some T ∧ ∀ t : Bytes, (firstCol T).contains (Val.str t) = (tidsOf K).contains t
   tsids : env.lookup (.named "trace_span_ids") = some (tsidsTable K)
   info : env.lookup (.named "traces_info") = some (infoTable K S)
 
@@ -314,8 +315,9 @@ theorem where_srow (o : Oracles) (env : Env) (K : List (Bytes × List Bytes)) (S
       ((tidsOf K).contains s.traceId && (pairsFlat K).contains (s.traceId, s.spanId)) := by
   have g1 : (srow s ++ x).get "traces.trace_id" = .str s.traceId := by rfl
   have g2 : (srow s ++ x).get "traces.span_id" = .str s.spanId := by rfl
-  simp only [tracesWhere, and_, evalBJ, evalAllJ, if_true, Bool.and_true, evalB, evalE, he.tids, he.tsids, Option.getD_some,
-    tidsTable, tsidsTable, firstCol_tids, firstTwo_pairs, truthy_boolVal, g1, g2, contains_map_str, contains_map_pair]
+  obtain ⟨T, hT1, hT2⟩ := he.tids
+  simp only [tracesWhere, and_, evalBJ, evalAllJ, if_true, Bool.and_true, evalB, evalE, hT1, he.tsids, Option.getD_some,
+    tsidsTable, firstTwo_pairs, truthy_boolVal, g1, g2, hT2, contains_map_pair]
 
 theorem on_srow (o : Oracles) (env : Env) (S : List SpanRow) (s : SpanRow) (t : Bytes) (m : Int) :
     evalB o env (srow s ++ qualify "traces_info" (infoRow t m)) tracesOn = decide (t = s.traceId) := by
@@ -664,9 +666,9 @@ theorem stmt_eval (o : Oracles) (ao : AggOracles) (db : Db) (c : Ctx) (main : Se
   have e3 := traceInfo_eval o ao db
     ((.named "trace_span_ids", (pairsOf T).flatMap (fun k => k.2.map (fun v => [("trace_id", Val.str k.1), ("span_id", Val.str v)]))) ::
       (.named "trace_ids", (pairsOf T).map (fun k => [("trace_id", Val.str k.1)])) :: (.named "index_grouped", T) :: env1) c S (pairsOf T) hdb2
-    (by rfl)
+    ((pairsOf T).map (fun k => [("trace_id", Val.str k.1)])) (by rfl) (fun t => by rw [firstCol_tids, contains_map_str])
   rw [e3]
   exact body_eval o ao db _ (tracesTableOf c) (pairsOf T) S hdb
-    ⟨by rfl, by rfl, by rfl⟩ (limOf c) (limOf_ok c)
+    ⟨⟨_, by rfl, fun t => by rw [firstCol_tids, contains_map_str]⟩, by rfl, by rfl⟩ (limOf c) (limOf_ok c)
 
 end Qryn.TraceQL
